@@ -306,6 +306,32 @@ func c01Run(c *core.Ctx) *core.Result {
 			mutate(R, prior, R.Range(1, 4), eo)
 		}
 	}
+	// a stale socket where the source has an empty regular file of the same
+	// mode, owner and time: a walk reports a socket as an empty regular file,
+	// the destination must still end up with the file
+	if sr := core.NewRand(core.Mix(c.Seed, "C01-stale-socket", c.Index)); !merge && !unpriv && sr.P(1, 10) {
+		if src.Get("zsock") == nil && sr.P(1, 2) {
+			src.Put(tree.Entry{Path: "zsock", Type: tree.File, Perm: 0755, Mtime: 1_234_567_890_000_000_000, Data: []byte{}})
+		}
+		for _, e := range src.Entries {
+			if e.Type != tree.File || e.LinkTo != "" || src.GroupOf(e.Path) != "" || len(e.Data) != 0 || len(e.Xattrs) != 0 {
+				continue
+			}
+			ok := true
+			for a := tree.Parent(e.Path); a != ""; a = tree.Parent(a) {
+				if pe := prior.Get(a); pe == nil || pe.Type != tree.Dir {
+					ok = false
+				}
+			}
+			if !ok {
+				continue
+			}
+			prior.Remove(e.Path)
+			prior.Put(tree.Entry{Path: e.Path, Type: tree.Sock, Perm: e.Perm, UID: e.UID, GID: e.GID, Mtime: e.Mtime})
+			r.Count("stale_sockets_at_the_path_of_an_equal_empty_file", 1)
+		}
+		fixGroups(prior)
+	}
 	if unpriv {
 		for i := range prior.Entries {
 			e := &prior.Entries[i]
@@ -332,7 +358,27 @@ func c01Run(c *core.Ctx) *core.Result {
 	var fs fsutil.FS
 	if synthetic {
 		view = src
-		fs = newSynthFSReaders(src, R)
+		sfs := newSynthFSReaders(src, R)
+		if zr := core.NewRand(core.Mix(c.Seed, "C01-announced-size", c.Index)); kind != "aborted" && zr.P(1, 6) {
+			// a view whose stat sizes are not exact (generated or virtual
+			// files report 0, a log grows after the walk): what arrives is
+			// what Open yields (not into leftovers of an aborted run of the same
+			// view: an empty leftover with the final time equals a lying stat)
+			off := map[string]int64{}
+			for _, e := range src.Entries {
+				if e.Type == tree.File && e.LinkTo == "" && src.GroupOf(e.Path) == "" && len(e.Data) > 0 && prior.Get(e.Path) == nil && zr.P(1, 2) {
+					off[e.Path] = -int64(len(e.Data))
+					if zr.P(1, 3) {
+						off[e.Path] = -int64(1 + zr.Intn(len(e.Data)))
+					}
+				}
+			}
+			if len(off) > 0 {
+				sfs.SizeOff = off
+				r.Count("synthetic_views_announcing_less_than_the_content", 1)
+			}
+		}
+		fs = sfs
 	} else {
 		// unix sockets in an on-disk source: the view exposes them as empty
 		// regular entries (the walk does not carry the socket bit, opening
